@@ -44,6 +44,23 @@ func genC19(seed uint64, r *rng.Rand) *Plan {
 		(&Gen{R: g.R, nonce: 900000}).SingleOp(p.Layout.Tables[0].Name, []byte("late"), []string{"get", "put"}),
 		(&Gen{R: g.R, nonce: 900010}).batchOf(&p.Layout.Tables[0], 3, []string{"get", "put"})}})
 	p.Sched.MaxFake = 20 * time.Minute
+	if g.R.Chance(0.25) {
+		// a scan with scanner renewal that is between two fetches (or has been
+		// forgotten by the application) when Close comes: the renewer has to stop
+		ts := &p.Layout.Tables[0]
+		(&Gen{R: g.R}).PreloadRows(ts, g.R.Range(4, 30), 3)
+		o := Op{Kind: "scan", Table: ts.Name, Nonce: 950001, NumRows: uint32(g.R.Range(1, 2)), RenewMS: g.R.Range(5, 400)}
+		if g.R.Chance(0.5) {
+			o.Abandon = g.R.Range(1, 4)
+		} else {
+			o.PauseMS = g.R.Range(50, 20000)
+		}
+		ops := []Op{o}
+		if g.R.Chance(0.5) {
+			ops = append([]Op{{Kind: "sleep", MS: g.R.Range(1, 200)}}, ops...)
+		}
+		p.Tasks = append(p.Tasks, Task{Ops: ops})
+	}
 	return p
 }
 
